@@ -169,6 +169,11 @@ def run(ck, rng, tier):
             want = P - Y[:, [j % nycols for j in range(P.shape[1])]]
             if R.shape != P.shape or np.abs(R - want).max() > 1e-9 * max(np.abs(Y).max(), np.abs(P).max(), 1e-300):
                 ck.fail(site, "residual_columns_" + ALGOS[algo], "reported residuals are not prediction minus the matching response column", {"cmd": cmd})
+        # the residuals do not depend on whether the prediction matrix was asked for as well
+        if "resid_only" in o2[0] and algo != 5:
+            R1 = np.array(o2[0]["resid_only"])
+            if R1.shape != R.shape or not (np.abs(R1 - R).max() <= 1e-12 * max(np.abs(R).max(), 1e-300)):
+                ck.fail(site, "residuals_without_predictions_" + ALGOS[algo], "the residuals of a call without a prediction matrix differ from those of the call with one (max %.3g)" % (np.abs(R1 - R).max() if R1.shape == R.shape else float("nan")), {"cmd": cmd})
         # equals the refit on exactly the other folds
         if folds is not None:
             rl = []
